@@ -50,6 +50,8 @@ pub struct Broker {
     /// Server bytes seen on the current connection and not yet split into packets.
     srv_buf: Vec<u8>,
     srv_desync: bool,
+    /// Static replay: ids that were answered by a PUBREC with the success-class reason 0x10.
+    pub rc10_ids: Vec<u16>,
 }
 
 const FAIL_CODES: [u8; 7] = [0x80, 0x83, 0x87, 0x90, 0x91, 0x97, 0x99];
@@ -133,6 +135,7 @@ impl Broker {
             always_retransmit: false,
             srv_buf: Vec::new(),
             srv_desync: false,
+            rc10_ids: Vec::new(),
         }
     }
 
@@ -203,6 +206,9 @@ impl Broker {
                 5 => {
                     if body.get(2).copied().unwrap_or(0) >= 0x80 {
                         self.inflight.remove(&be(0));
+                    }
+                    if body.get(2).copied() == Some(0x10) && !self.rc10_ids.contains(&be(0)) {
+                        self.rc10_ids.push(be(0));
                     }
                     self.drop_owed("pubrec", be(0));
                 }
@@ -458,6 +464,17 @@ impl Broker {
             o.kind = "dup";
             o
         })
+    }
+
+    /// Register an inbound QoS 2 PUBLISH that the generator built by hand, so that the PUBREL
+    /// is owed once the client's PUBREC is seen.
+    pub fn adopt_in2(&mut self, id: u16, bytes: Vec<u8>) {
+        self.in2.retain(|e| e.id != id);
+        self.in2.push(In2 {
+            id,
+            rec_seen: false,
+            bytes,
+        });
     }
 
     /// Number of inbound QoS 2 ids the client may still be holding.
